@@ -151,14 +151,14 @@ def parseObs (s : String) : Option Spec.C32.Obs :=
 
 /-! LimitedReadCloser alone -/
 
-def parseStep (s : String) : Option Spec.C32.Step :=
+def parseStep (s : String) : Option Step :=
   if s = "c" then some .close
   else if s.startsWith "r" then (s.drop 1).toNat?.map .read else none
 
 structure LOp where
   limit : Int
   src : Src
-  steps : List Spec.C32.Step
+  steps : List Step
 
 /-- the bytes of an `l` op: `(7 i + 3) mod 256` -/
 def patternData (size : Nat) : List Nat := (List.range size).map fun i => (7 * i + 3) % 256
@@ -176,15 +176,14 @@ def parseL : List String → Option LOp
            src := { data := patternData size, chunks := chunks, eager := eager, term := term, closeErr := closeErr } }
   | _ => none
 
-/-- run the steps on the model; answers `n/err` per read, `c/err` per close -/
-def runL (l : LRC) : List Spec.C32.Step → List Nat → List String → LRC × List Nat × List String
-  | [], got, out => (l, got, out.reverse)
-  | .read k :: ss, got, out =>
-    match l.read k with
-    | (l', bs, e) => runL l' ss (got ++ bs) (s!"{bs.length}/{showRErr e}" :: out)
-  | .close :: ss, got, out =>
-    match l.close with
-    | (l', e) => runL l' ss got (s!"c/{showCErr e}" :: out)
+def showStepRes : StepRes → String
+  | .rd bs e => s!"{bs.length}/{showRErr e}"
+  | .cl e => s!"c/{showCErr e}"
+
+def bytesOf : List StepRes → List Nat
+  | [] => []
+  | .rd bs _ :: rs => bs ++ bytesOf rs
+  | .cl _ :: rs => bytesOf rs
 
 def isPrefix : List Nat → List Nat → Bool
   | [], _ => true
@@ -192,8 +191,8 @@ def isPrefix : List Nat → List Nat → Bool
   | _ :: _, [] => false
 
 def answerL (op : LOp) : String :=
-  let (l, got, out) := runL (LRC.new op.src op.limit) op.steps [] []
-  s!"{joinComma out} {boolStr (isPrefix got op.src.data)} {l.r.closes}"
+  let (l, rs) := (LRC.new op.src op.limit).runSteps op.steps
+  s!"{joinComma (rs.map showStepRes)} {boolStr (isPrefix (bytesOf rs) op.src.data)} {l.r.closes}"
 
 def parseStepObs (s : String) : Option Spec.C32.StepObs :=
   match s.splitOn "/" with
